@@ -225,12 +225,12 @@ def c05(sc, V):
             # F28: the socket-triggered start of an on-demand watcher runs detached, outside the exclusive slot; a stop or
             # restart overlapping it ends in reap_processes() waiting for workers that were spawned during the stop
             od = any(c.get("on_demand") for c in sc["watchers"]) and any(x.kind() == "sockev" and x.op[1] for x in V[:s.n])
-            f.append({"sig": "event-loop-blocked@on-demand-start-overlap" if od else "event-loop-blocked", "step": s.n,
+            f.append({"sig": "on-demand-start-overlap" if od else "event-loop-blocked", "step": s.n,
                       "msg": "daemon spins for ever inside one step (op %r)" % (s.op,)})
             break
         if s.slept > 40:
             od = any(c.get("on_demand") for c in sc["watchers"]) and any(x.kind() == "sockev" and x.op[1] for x in V[:s.n])
-            f.append({"sig": "event-loop-blocked@on-demand-start-overlap" if od else "event-loop-stalled", "step": s.n,
+            f.append({"sig": "on-demand-start-overlap" if od else "event-loop-stalled", "step": s.n,
                       "msg": "event loop blocked for %d ms in one step" % s.slept})
         if s.kind() == "req" and s.cmd() in ("status", "list", "numprocesses", "numwatchers", "options", "globaloptions") \
                 and not s.before.blocked and not _ctl_closed_before(V, s.n) and s.op[1].get("msg_type") != "cast":
@@ -539,7 +539,7 @@ def c03(sc, V):
                     (t0a, t0b), _, T, n0 = stop_sent[pid]
                     # time the loop spent blocked in Popen since then stretches every 100 ms poll
                     slack = sum(busy[n0:s.n + 1])
-                    if T is not None and now < t0a + T:
+                    if T is not None and now < t0a + T and not s.snap.blocked:      # a hanging step has no end time
                         f.append({"sig": "sigkill-early", "step": s.n,
                                   "msg": "pid %d SIGKILLed at most %d ms after the stop signal, graceful_timeout %d ms" % (pid, now - t0a, T)})
                     if T is not None and step_nominal(s) > t0b + T + 100 + slack:
@@ -703,7 +703,10 @@ def c04(sc, V):
         if a.quiescent():
             for w in a.watchers:
                 if w["status"] in ("starting", "stopping"):
-                    f.append({"sig": "transient-status-stuck" + ("-after-exception" if raised else ""), "step": s.n,
+                    odw = any(c.get("on_demand") and c["name"] == w["name"] for c in sc["watchers"]) and \
+                        any(x.kind() == "sockev" and x.op[1] for x in V[:s.n])
+                    f.append({"sig": "on-demand-start-overlap" if odw else
+                              "transient-status-stuck" + ("-after-exception" if raised else ""), "step": s.n,
                               "msg": "%s is %s with nothing in flight" % (w["name"], w["status"])})
             for pid, (st, pp) in a.kernel.items():
                 if pp == 0 and st == "r" and pid not in listed and pid not in orphaned_ok and pid in spawned and \
@@ -711,7 +714,7 @@ def c04(sc, V):
                     # F28: the detached socket-triggered start of an on-demand watcher goes on spawning after the watcher was removed
                     od = any(c.get("on_demand") and c["name"].replace(" ", "_") == spawned[pid] for c in sc["watchers"]) and \
                         any(x.kind() == "sockev" and x.op[1] for x in V[:s.n]) and any(x.cmd() == "rm" for x in V[:s.n])
-                    f.append({"sig": "untracked-live-worker@on-demand-start-overlap" if od else "untracked-live-worker", "step": s.n,
+                    f.append({"sig": "on-demand-start-overlap" if od else "untracked-live-worker", "step": s.n,
                               "msg": "pid %d (%s) is alive but no watcher lists it" % (pid, spawned[pid])})
             if s.kind() == "check" and not any(l[0] == "conflict" for l in s.lines) and not a.stopping and \
                     not (s.n > 0 and V[s.n - 1].kind() == "fault"):
